@@ -6,6 +6,7 @@ import Driver.Rewards
 import Driver.Pconc
 import Driver.Abi
 import Driver.Tally
+import Driver.Chain
 open Driver
 
 def dispatch (fam : String) : Option (List String → String → Option Res) :=
@@ -19,6 +20,8 @@ def dispatch (fam : String) : Option (List String → String → Option Res) :=
   | "pcache" => some runPcache
   | "pconc" => some runPconc
   | "calc" => some runCalc
+  | "supply" => some runSupply
+  | "nohalt" => some runNoHalt
   | "tally" => some runTally
   | "ratio" => some runRatio
   | "valset" => some runValset
